@@ -2474,7 +2474,7 @@ class _DOP853(_AdaptiveStepRK):
                 err_norm = 0.0
             else:
                 denom = err5_norm_2 + 0.01 * err3_norm_2
-                err_norm = np.abs(h) * err5_norm_2 / np.sqrt(denom * scale.size)
+                err_norm = err5_norm_2 / np.sqrt(denom * scale.size)
 
             if err_norm <= 1.0:
                 t_new = t + h
@@ -2601,7 +2601,7 @@ class _DOP853(_AdaptiveStepRK):
                 err_norm = 0.0
             else:
                 denom = err5_norm_2 + 0.01 * err3_norm_2
-                err_norm = np.abs(h) * err5_norm_2 / np.sqrt(denom * scale.size)
+                err_norm = err5_norm_2 / np.sqrt(denom * scale.size)
 
             if err_norm <= 1.0:
                 t_new = t + h
@@ -2783,7 +2783,7 @@ class _DOP853(_AdaptiveStepRK):
                 err_norm = 0.0
             else:
                 denom = err5_norm_2 + 0.01 * err3_norm_2
-                err_norm = np.abs(h) * err5_norm_2 / np.sqrt(denom * scale.size)
+                err_norm = err5_norm_2 / np.sqrt(denom * scale.size)
 
             if err_norm <= 1.0:
                 # accept
@@ -2848,7 +2848,7 @@ class _DOP853(_AdaptiveStepRK):
                 err_norm = 0.0
             else:
                 denom = err5_norm_2 + 0.01 * err3_norm_2
-                err_norm = np.abs(h) * err5_norm_2 / np.sqrt(denom * scale.size)
+                err_norm = err5_norm_2 / np.sqrt(denom * scale.size)
 
             if err_norm <= 1.0:
                 # accept
